@@ -573,8 +573,16 @@ def st_stream_spec(draw: st.DrawFn, *, kinds: list[str] | None = None) -> dict:
     return spec
 
 
+def _converter_refuses(j: Any) -> bool:
+    return j == "!bad" or j == b"!bad" or (isinstance(j, dict) and "!bad" in j)
+
+
 def st_packet(spec: dict) -> st.SearchStrategy[Any]:
     """JSON-able valid packet for `spec` (size not yet checked against the limit: the limit is drawn afterwards)."""
+    if spec.get("conv"):
+        # the harness converter refuses its marker values: they are not *valid* packets of a protocol with that converter
+        # (false alarm of the thorough tier: hfile + converter + packet b"!bad")
+        return st_packet({k: v for k, v in spec.items() if k != "conv"}).filter(lambda j: not _converter_refuses(j))
     k = spec["kind"]
     if k == "stapled":
         return st_packet(spec["sent"])
